@@ -152,6 +152,7 @@ def lay_out(arr, layout, kind):
 
 
 LAYOUT_COUNTS = {}
+BIG_COUNTS = {}
 
 
 def auto_layout(N, types, d):
@@ -228,14 +229,19 @@ def retilt(rng, cell):
 
 
 def static_system(rng, d=None, N=None, K=1, cellkind=None, poskind=None, frames=1, nmin=2, nmax=60, jitter=0.03, retype=False,
-                  vary_tilt=False, layout=None):
+                  vary_tilt=False, layout=None, big=False):
     """one random multi-frame static system; returns (Snapshots, info).
     vary_tilt: for a triclinic cell and several frames, 40 % of the systems get an own tilt per frame (equal edge lengths, as the
     analyses require); info["Hs"] then lists the cell matrix of every frame."""
     d = d or int(rng.choice([2, 3]))
     cellkind = cellkind or str(rng.choice(["ortho", "ortho", "tri+", "tri-", "tri"]))
     poskind = poskind or str(rng.choice(["gas", "lattice", "cluster", "hardcore"]))
-    N = N or int(rng.integers(max(nmin, K), nmax + 1))
+    if N is None:
+        N = int(rng.integers(max(nmin, K), nmax + 1))
+        if big and N >= nmax - 2:
+            # a few systems well beyond the usual size, straddling powers of two (block-wise / chunked evaluation boundaries)
+            N = [129, 257, 200, 300, 513][(K + d + N) % (5 if big == "xl" else 4)]
+            BIG_COUNTS[N] = BIG_COUNTS.get(N, 0) + 1
     cell = make_cell(rng, d, cellkind)
     f0 = make_frac(rng, d, N, poskind)
     N = len(f0)
